@@ -276,6 +276,16 @@ class Resolver:
 
     def _resolve_elem(self, it: ast.expr, path: Tuple[int, ...], ctx: FnCtx, depth: int) -> List[AV]:
         """Value of a loop target iterating `it` (path = position inside a tuple target)."""
+        if isinstance(it, (ast.GeneratorExp, ast.ListComp, ast.SetComp)):
+            # the comprehension variables are bound in the enclosing function's flat binding table
+            elt = it.elt
+            for i in path:
+                if isinstance(elt, ast.Tuple) and i < len(elt.elts):
+                    elt = elt.elts[i]
+                else:
+                    res = self.resolve(elt, ctx, ctx.module, depth + 1)
+                    return [("elemof",) + r if r[0] not in ("provided", "unknown", "param") else r for r in res]
+            return self.resolve(elt, ctx, ctx.module, depth + 1)
         if isinstance(it, ast.Call):
             fname = self._callee_ext(it.func, ctx)
             if fname == "builtins.zip" and path:
@@ -309,6 +319,9 @@ class Resolver:
             elif r[0] == "expr" and isinstance(r[1], (ast.Tuple, ast.List, ast.Set)) and not path:
                 for e in r[1].elts:
                     out += self.resolve(e, r[2], r[3], depth + 1)
+            elif r[0] == "expr" and r[1] is not it and r[2] is not None and depth < 12 \
+                    and isinstance(r[1], (ast.GeneratorExp, ast.ListComp, ast.SetComp, ast.Call)):
+                out += self._resolve_elem(r[1], path, r[2], depth + 1)
             elif r[0] in ("provided", "unknown", "param"):
                 out.append(r)
             else:
